@@ -3619,6 +3619,66 @@ func TestRuntimeContractUpdateConformanceChanges(t *testing.T) {
 		require.NoError(t, err)
 	})
 
+	testWithValidators(t, "removing conformance of interface", func(t *testing.T, config Config) {
+
+		const oldCode = `
+            access(all) contract Test {
+                access(all) struct interface Bar {}
+
+                access(all) struct interface Baz: Bar {}
+
+                access(all) struct Foo: Baz {}
+            }
+        `
+
+		const newCode = `
+            access(all) contract Test {
+                access(all) struct interface Bar {}
+
+                access(all) struct interface Baz {}
+
+                access(all) struct Foo: Baz {}
+            }
+        `
+
+		err := testDeployAndUpdate(t, "Test", oldCode, newCode, config)
+		RequireError(t, err)
+
+		cause := getSingleContractUpdateErrorCause(t, err, "Test")
+
+		assertConformanceMismatchError(t, cause, "Baz", "Bar")
+	})
+
+	testWithValidators(t, "adding and reordering conformances of interface", func(t *testing.T, config Config) {
+
+		const oldCode = `
+            access(all) contract Test {
+                access(all) struct interface First {}
+
+                access(all) struct interface Second {}
+
+                access(all) struct interface Third {}
+
+                access(all) struct interface Baz: First, Second {}
+            }
+        `
+
+		const newCode = `
+            access(all) contract Test {
+                access(all) struct interface First {}
+
+                access(all) struct interface Second {}
+
+                access(all) struct interface Third {}
+
+                access(all) struct interface Baz: Third, Second, Test.First {}
+            }
+        `
+
+		err := testDeployAndUpdate(t, "Test", oldCode, newCode, config)
+		require.NoError(t, err)
+	})
+
 	testWithValidators(t, "missing comma in parameter list of old contract", func(t *testing.T, config Config) {
 
 		address := common.MustBytesToAddress([]byte{0x42})
